@@ -95,14 +95,15 @@ fn level(cx: &mut Ctx, sum: &mut Summary, image: &[u8], reference: Option<&Obs>,
                 // more rounds, each followed by header writes), sentinel, header, fsync — all on the original
                 let k: Vec<&str> = c.iter().map(|t| t.as_str()).collect();
                 let n = k.len();
-                let tail_ok = n >= 4 && k[n - 1] == "fsync.o" && k[n - 2] == "pwrite.o.hdr" && k[n - 3] == "pwrite.o.sent" && k[n - 4] == "pwrite.o.hdr";
+                let tail_ok = n >= 4 && k[n - 1] == "fsync.o" && k[n - 2] == "pwrite.o.hdr" && k[n - 3] == "pwrite.o.sent"
+                    && (k[n - 4] == "pwrite.o.hdr" || k[n - 4] == "fsync.o");
                 let toc_rounds = k.windows(4).filter(|w| w[0] == "pwrite.o.toc" && w[1] == "pwrite.o.foot" && w[2] == "ftruncate.o" && w[3] == "fsync.o").count();
                 let first_data = k.iter().position(|t| *t == "pwrite.o.data");
                 let first_toc = k.iter().position(|t| *t == "pwrite.o.toc");
                 let head_ok = k[0] == "pwrite.o.sent" && first_data.is_some() && first_toc.map(|t| t > first_data.unwrap()).unwrap_or(false);
                 if !(tail_ok && toc_rounds >= 1 && head_ok) {
                     sum.disagreement("recorded in-place recovery does not have the shape of Emit.recoverProto",
-                        json!({"root": root, "at": path_desc}), "sent+ data+ [trunc] data* … (toc foot trunc fsync hdr+)+ sent hdr fsync", &shape.join(" "));
+                        json!({"root": root, "at": path_desc}), "sent+ data+ [trunc] data* … (toc foot trunc fsync hdr+)+ [data* toc foot trunc fsync] sent hdr fsync", &shape.join(" "));
                 } else {
                     sum.branch("tie1-recover-shape");
                 }
